@@ -486,3 +486,8 @@ impl NetworkRef {
             .and_then(|network| (!network.0.is_closed()).then_some(network))
     }
 }
+
+#[cfg(feature = "verif-hooks")]
+pub(crate) use connection_manager::verif_hooks as connection_manager_hooks;
+#[cfg(feature = "verif-hooks")]
+pub(crate) use wire::verif_hooks as wire_hooks;
